@@ -218,7 +218,7 @@ type usingCheck struct {
 // newTypechecker creates a new type checker. A global scope may be provided
 // for templates.
 func newTypechecker(compilation *compilation, path string, opts checkerOptions, importer native.Importer) *typechecker {
-	tt := types.NewTypes()
+	tt := compilation.types
 	tc := typechecker{
 		compilation:   compilation,
 		path:          path,
